@@ -35,16 +35,21 @@ Proof. exact (inv33_solves m x). Qed.
 Theorem C25_det_inv33 m : k25_det33 ROps m <> 0 -> k25_det33 ROps (k25_inv33 ROps m) * k25_det33 ROps m = 1.
 Proof. exact (det_inv33 m). Qed.
 
-Theorem C25_invSym33_refuted : exists s, k25_detSym33 ROps s <> 0 /\ mm (sym_to_m33 s) (sym_to_m33 (k25_invSym33 ROps s)) <> I33.
-Proof. exact (@invSym33_refuted). Qed.
+Theorem C25_invSym33_is_inv33 s : k25_detSym33 ROps s <> 0 ->
+  sym_to_m33 (k25_invSym33 ROps s) = k25_inv33 ROps (sym_to_m33 s).
+Proof. exact (invSym33_is_inv33 s). Qed.
 
-Theorem C25_invSym33_partial xx yy zz o : k25_detSym33 ROps ((xx,yy,zz),(o,o,o)) <> 0 ->
-  sym_to_m33 (k25_invSym33 ROps ((xx,yy,zz),(o,o,o))) = k25_inv33 ROps (sym_to_m33 ((xx,yy,zz),(o,o,o))).
-Proof. exact (invSym33_partial xx yy zz o). Qed.
+Theorem C25_invSym33_right s : k25_detSym33 ROps s <> 0 -> mm (sym_to_m33 s) (sym_to_m33 (k25_invSym33 ROps s)) = I33.
+Proof. exact (invSym33_right s). Qed.
 
-Theorem C25_invSym33_right_partial xx yy zz o : k25_detSym33 ROps ((xx,yy,zz),(o,o,o)) <> 0 ->
-  mm (sym_to_m33 ((xx,yy,zz),(o,o,o))) (sym_to_m33 (k25_invSym33 ROps ((xx,yy,zz),(o,o,o)))) = I33.
-Proof. exact (invSym33_right_partial xx yy zz o). Qed.
+Theorem C25_invSym33_left s : k25_detSym33 ROps s <> 0 -> mm (sym_to_m33 (k25_invSym33 ROps s)) (sym_to_m33 s) = I33.
+Proof. exact (invSym33_left s). Qed.
+
+Theorem C25_invSym33_before_fix_was_wrong :
+  let s : SymMat33 R := ((2,3,4),(1/10,1/5,3/10)) in
+  k25_detSym33 ROps s <> 0 /\ mm (sym_to_m33 s) (sym_to_m33 (invSym33_before_fix s)) <> I33 /\
+  mm (sym_to_m33 s) (sym_to_m33 (k25_invSym33 ROps s)) = I33.
+Proof. exact (@invSym33_before_fix_was_wrong). Qed.
 
 Theorem C25_cross_is_cross a b : k25_cross ROps a b = v3_cross ROps a b.
 Proof. exact (cross_is_cross a b). Qed.
@@ -118,9 +123,10 @@ Definition C25_all := (@C25_det33_is_triple_product,
   @C25_inv33_left,
   @C25_inv33_solves,
   @C25_det_inv33,
-  @C25_invSym33_refuted,
-  @C25_invSym33_partial,
-  @C25_invSym33_right_partial,
+  @C25_invSym33_is_inv33,
+  @C25_invSym33_right,
+  @C25_invSym33_left,
+  @C25_invSym33_before_fix_was_wrong,
   @C25_cross_is_cross,
   @C25_cross_anticommutes,
   @C25_cross_self,
